@@ -3,6 +3,7 @@
 package enccommon
 
 import (
+	"bytes"
 	"crypto/rand"
 	"encoding/json"
 	"errors"
@@ -71,7 +72,16 @@ func Chunking(s *simrt.Sim, r *simio.Reader) {
 // the terminal error (io.EOF for a clean end).
 func ReadAllChunked(s *simrt.Sim, r io.Reader) ([]byte, error) {
 	var palette []int
-	switch s.Choose(4, "consumerstyle") {
+	switch s.Choose(5, "consumerstyle") {
+	case 4:
+		// io.Copy: takes the stream's WriteTo if it has one, else reads with its own 32 KiB buffer; its nil is
+		// the clean end of the stream
+		var b bytes.Buffer
+		_, err := io.Copy(&b, r)
+		if err == nil {
+			err = io.EOF
+		}
+		return b.Bytes(), err
 	case 0:
 		palette = []int{1, 2, 3, 7}
 	case 1:
